@@ -99,9 +99,13 @@ def run_batch(mname, seed, tier, indices, watchdog):
             for k, v in out["probes"].items():
                 agg["probes"][k] = agg["probes"].get(k, 0) + v
             agg["keys"].update(out["keys"])
-            agg["digests"][i] = out["digest"]
             if out["violations"]:
                 agg["nviol_runs"] += 1
+            else:
+                # the determinism self-test compares violation-free runs; runs with
+                # violations are re-executed from their replay file in a fresh
+                # interpreter (same violation and same digest required) instead
+                agg["digests"][i] = out["digest"]
             seen_here = set()
             for v in out["violations"]:
                 k = sig_key(v["signature"])
